@@ -394,3 +394,53 @@ impl http_serve::verif::Sched for Sched {
         self.yield_point("release", 0);
     }
 }
+
+pub type Job = Box<dyn FnOnce() + Send + 'static>;
+
+/// Persistent helper threads (one producer, one consumer per worker): spawning two OS threads
+/// per run serialises on the process's address-space lock when 16 workers do it at once.
+pub struct Helper {
+    tx: std::sync::mpsc::Sender<Job>,
+    done: std::sync::mpsc::Receiver<()>,
+}
+
+impl Helper {
+    pub fn new(name: &str) -> Helper {
+        let (tx, rx) = std::sync::mpsc::channel::<Job>();
+        let (dtx, done) = std::sync::mpsc::channel::<()>();
+        std::thread::Builder::new()
+            .name(name.to_string())
+            .spawn(move || {
+                while let Ok(job) = rx.recv() {
+                    job();
+                    if dtx.send(()).is_err() {
+                        break;
+                    }
+                }
+            })
+            .expect("spawn helper");
+        Helper { tx, done }
+    }
+    pub fn run(&self, job: Job) {
+        self.tx.send(job).expect("helper alive");
+    }
+    pub fn wait(&self) {
+        let _ = self.done.recv();
+    }
+}
+
+thread_local! {
+    pub static HELPERS: std::cell::RefCell<Option<(Helper, Helper)>> = const { std::cell::RefCell::new(None) };
+}
+
+pub fn with_helpers<R>(f: impl FnOnce(&Helper, &Helper) -> R) -> R {
+    HELPERS.with(|h| {
+        let mut h = h.borrow_mut();
+        if h.is_none() {
+            *h = Some((Helper::new("sim-producer"), Helper::new("sim-consumer")));
+        }
+        let (p, c) = h.as_ref().unwrap();
+        f(p, c)
+    })
+}
+
